@@ -516,3 +516,7 @@ def run(ck):
         finally:
             ck.rule = save
         c09_4(ck, prog)
+        r = ck.rule('C09.6', 'the list of pending replies lives as long as the bus (created once, released only by the '
+                    'destructor)', 'WHO', breaks='recreating it forgets outstanding calls: their replies are refused '
+                    'and no NoReply is ever sent', floor=1)
+        lib.state_lifetime(prog, r, [('BusConnections', 'pending_replies'), ('BusContext', 'connections')])
